@@ -43,6 +43,26 @@ class C03(FprCheck):
                     p = list(range(na))
                     rng.shuffle(p)
                     perms.append(p)
+                # a renumbering that leaves element and degree at every index unchanged (two like atoms swapped): the molecule
+                # "looks the same" position by position, only bonds and coordinates tell the two numberings apart
+                cls = {}
+                for a in mol.GetAtoms():
+                    cls.setdefault((a.GetAtomicNum(), a.GetDegree()), []).append(a.GetIdx())
+                like = [v for k, v in cls.items() if len(v) >= 2 and k[0] > 1]
+                if like:
+                    v = rng.choice(like)
+                    i, j = rng.sample(v, 2)
+                    p = list(range(na))
+                    p[i], p[j] = p[j], p[i]
+                    perms.append(p)
+                    self.count("renumbered:like-atoms-swapped")
+                    if len(v) >= 3:
+                        p = list(range(na))
+                        w = list(v)
+                        rng.shuffle(w)
+                        for x, y in zip(v, w):
+                            p[x] = y
+                        perms.append(p)
             for p in perms:
                 self.count("renumbered")
                 yield dict(base, perm=p)
@@ -161,6 +181,21 @@ class C03(FprCheck):
             lvl = next((i for i, (x, y) in enumerate(zip(oa["levels"], ob["levels"])) if x != y), None)
             return {"key": "renumbering-changes-fingerprint", "what": "fingerprint changed under atom renumbering (first differing level %s; stop level %s vs %s)" % (
                 lvl, oa["current"], ob["current"])}
+        # one fingerprinter object fed the molecule and then its renumbered copy (a renumbered file of the same compound keeps
+        # the molecule's name): the copy's fingerprint is that of a fresh fingerprinter
+        mol0, conf0 = build(base)
+        if mol0.HasProp("_Name"):
+            mol.SetProp("_Name", mol0.GetProp("_Name"))
+        fpr = MG.make_fprinter(o)
+        try:
+            fpr.run(conf0, mol0)
+            fpr.run(conf, mol)
+            c = {"ok": MG.dump_run(fpr, case.get("queries", []))}
+        except Exception as e:  # noqa: BLE001
+            c = {"err": type(e).__name__}
+        if "ok" in c and vlib.canon(observable(c["ok"])) != vlib.canon(observable(b["ok"])):
+            return {"key": "renumbering-changes-fingerprint:same-fingerprinter",
+                    "what": "a fingerprinter that processed the molecule and then its renumbered copy gives the copy another fingerprint than a fresh fingerprinter"}
         return None
 
 
